@@ -114,3 +114,65 @@ Fixpoint serial (l : nat) (inside : bool) (o : list lobs) : bool :=
   end.
 
 End Broker.
+
+(* ------------------------------------------------------------------ two brokers *)
+(** Part 3: extension.Host has ONE broker per event type. A consumer of both events (msghub,
+    the Lua host) is listener [l] of the stored broker AND listener [l] of the deleted
+    broker; the two brokers share nothing. A tagged schedule ([true] = stored broker)
+    interleaves their steps; the consumer's log is the merged sequence of its invocations. *)
+Section TwoBrokers.
+Variable E : Type.
+
+Definition xact := (bool * bact E)%type.
+Definition xobs := (bool * lobs E)%type.
+
+Fixpoint xrun (ss ds : list (lst E)) (sched : list xact) : list (lst E) * list (lst E) * list xobs :=
+  match sched with
+  | [] => (ss, ds, [])
+  | (true, a) :: sched' =>
+      let (ss1, o1) := bstep E ss a in
+      let '(ss2, ds2, o2) := xrun ss1 ds sched' in (ss2, ds2, map (pair true) o1 ++ o2)
+  | (false, a) :: sched' =>
+      let (ds1, o1) := bstep E ds a in
+      let '(ss2, ds2, o2) := xrun ss ds1 sched' in (ss2, ds2, map (pair false) o1 ++ o2)
+  end.
+
+Fixpoint proj (b : bool) (sched : list xact) : list (bact E) :=
+  match sched with
+  | [] => []
+  | (b', a) :: s' => if Bool.eqb b b' then a :: proj b s' else proj b s'
+  end.
+
+Fixpoint oproj (b : bool) (o : list xobs) : list (lobs E) :=
+  match o with
+  | [] => []
+  | (b', x) :: o' => if Bool.eqb b b' then x :: oproj b o' else oproj b o'
+  end.
+
+(** The consumer's log: which event each invocation of listener [l] was for, with the broker. *)
+Fixpoint xlog (l : nat) (o : list xobs) : list (bool * E) :=
+  match o with
+  | [] => []
+  | (b, Begin _ l' e) :: o' => if Nat.eqb l l' then (b, e) :: xlog l o' else xlog l o'
+  | (_, End _ _ _) :: o' => xlog l o'
+  end.
+End TwoBrokers.
+
+(** Messages named by numbers: log entries (true, n) = stored(n), (false, n) = deleted(n). *)
+Fixpoint xsbd_scan (seen : list nat) (log : list (bool * nat)) : option nat :=
+  match log with
+  | [] => None
+  | (true, n) :: t => xsbd_scan (n :: seen) t
+  | (false, n) :: t => if existsb (Nat.eqb n) seen then xsbd_scan seen t else Some n
+  end.
+Definition xsbd_ok (log : list (bool * nat)) : bool :=
+  match xsbd_scan [] log with None => true | Some _ => false end.
+
+(** The schedule of finding K-C16-cross-broker-order: deliver m1 (the consumer's stored-handler
+    starts and stays busy), deliver m2, remove m2 (its deleted event goes through the other
+    broker, whose goroutine is idle), then m1's handler returns and m2's stored is delivered. *)
+Definition xbroker_witness : list (bool * bact nat) :=
+  [(true, Emit nat 1%nat); (true, Move nat 0%nat); (true, Emit nat 2%nat); (false, Emit nat 2%nat); (false, Move nat 0%nat);
+   (false, Move nat 0%nat); (true, Move nat 0%nat); (true, Move nat 0%nat); (true, Move nat 0%nat)].
+Definition xbroker_log : list (bool * nat) :=
+  xlog nat 0%nat (snd (xrun nat (binit nat 1%nat) (binit nat 1%nat) xbroker_witness)).
